@@ -38,8 +38,32 @@ def name(cx, n):
     return STerm(cx.const(n, NAME), (str,), n)
 
 
+CONCAT = z3.Function('shape_concat', SHAPE, SHAPE, SHAPE)  # tuple concatenation of two shapes
+NDIM = z3.Function('shape_ndim', SHAPE, z3.IntSort())  # len(shape)
+
+
+class ShapeT(STerm):
+    """A shape (tuple of ints of unknown rank): equality, `+` (tuple concatenation, uninterpreted with the instances
+    of len(a+b) = len(a)+len(b) added where used) and conditional merge."""
+
+    def binop(self, ctx, op, other, reflected):
+        if op == '+' and isinstance(other, ShapeT):
+            a, b = (other, self) if reflected else (self, other)
+            t = CONCAT(a.term, b.term)
+            ctx.assume(z3.And(NDIM(t) == NDIM(a.term) + NDIM(b.term), NDIM(a.term) >= 0, NDIM(b.term) >= 0), axiom='len(s + t) == len(s) + len(t) >= 0 for tuples')
+            return ShapeT(t, (tuple,))
+        return NotImplemented
+
+    def merge_with(self, c, other, reflected):
+        r = super().merge_with(c, other, reflected)
+        return ShapeT(r.term, r.pytypes) if isinstance(r, STerm) else r
+
+    def havoc(self, ctx, name):
+        return ShapeT(ctx.const(name, SHAPE, report=False), self.pytypes)
+
+
 def shape(cx, n):
-    return STerm(cx.const(n, SHAPE), (tuple,), n)
+    return ShapeT(cx.const(n, SHAPE), (tuple,), n)
 
 
 DT_CONST = {t: z3.Const('dtype_' + t.__name__, DT) for t in (bool, int, float, complex)}
@@ -429,6 +453,8 @@ def contracts():
                 continue
             cs.append(ReplaceInit(spelling, valkind))
     cs += [JoinArguments(), ArgumentsFor()]
+    from contracts import c13_ext
+    cs += c13_ext.contracts()
     return cs
 
 
